@@ -13,6 +13,10 @@ def run(res, tier, rng):
     from ural.data import ISO_3166_1_COUNTRIES_ALPHA_2 as ISO
     import ural.tld_data as D
 
+    from .C08 import psl_len
+    rules_by_tld = {}
+    for r_ in list(D.PUBLIC_SUFFIXES) + list(D.PRIVATE_SUFFIXES):
+        rules_by_tld.setdefault(r_.rstrip(".").rsplit(".", 1)[-1], []).append(r_)
     codes = sorted(ISO)
     suffixes = [s for s in D.PUBLIC_SUFFIXES if not s.startswith(("*", "!")) and s.isascii() and 1 <= s.count(".") + 1 <= 3]
     nontriv = set()
@@ -57,7 +61,11 @@ def run(res, tier, rng):
                         sfx = rng.choice(suffixes)
                         if not su.host.endswith("." + base_suffix) or i % 5 == 4:
                             break
-                        w = su.copy(); w.host = su.host[: -len(base_suffix)] + sfx; variants.append(("suffix swap " + sfx, w.render()))
+                        w = su.copy(); w.host = su.host[: -len(base_suffix)] + sfx
+                        # the swapped host must have exactly that suffix ('x' + '.se' is itself the public suffix 'x.se')
+                        if psl_len(rules_by_tld.get(w.host.lower().rsplit(".", 1)[-1], []), w.host.lower().split(".")) != sfx.count(".") + 1:
+                            continue
+                        variants.append(("suffix swap " + sfx, w.render()))
                 for nm, v in variants:
                     res.evaluations += 1
                     fv = call(fingerprint_url, v, strip_suffix=ss, platform_aware=pa)
@@ -69,6 +77,10 @@ def run(res, tier, rng):
                 # shape: no scheme, userinfo, port
                 sp = call(fingerprint_url, base, strip_suffix=ss, platform_aware=pa, unsplit=False)
                 if not isinstance(sp, Exc):
+                    import urllib.parse as U
+                    whole = U.urlunsplit(sp)
+                    if fb != (whole[2:] if sp.netloc else whole):
+                        res.violation("property", "fingerprint_url's string result is not its unsplit=False result put back together", input=dict(url=base, strip_suffix=ss), impl=fb)
                     try:
                         bad = sp.scheme or sp.username is not None or sp.password is not None or sp.port is not None
                     except ValueError:
@@ -82,6 +94,17 @@ def run(res, tier, rng):
     # model vs implementation (also on the urls of the shared grammar: compositional hosts, table-driven query items)
     for _ in range(1500 if tier == "quick" else 30000):
         cases_for_model.append((gen_url(rng), rng.random() < 0.5))
+    for u in ("/home", "home", "?q=1", "#/a", "a.com/login?next=%2Fhome", "/a/b/?c=1#d", "http:///a//b"):
+        for ss in (False, True):
+            cases_for_model.append((u, ss))
+            res.evaluations += 1
+            f = call(fingerprint_url, u, strip_suffix=ss)
+            sp = call(fingerprint_url, u, strip_suffix=ss, unsplit=False)
+            if not isinstance(sp, Exc) and not isinstance(f, Exc):
+                import urllib.parse as U
+                whole = U.urlunsplit(sp)
+                if f != (whole[2:] if sp.netloc else whole):
+                    res.violation("property", "fingerprint_url's string result is not its unsplit=False result put back together", input=dict(url=u, strip_suffix=ss), impl=f)
     chunks = [cases_for_model[i:i + 300] for i in range(0, len(cases_for_model), 300)]
     outs = common.run_driver_parallel([("fingerprint", [env_for(*[c[0] for c in ch]), [[u, ss] for u, ss in ch]]) for ch in chunks], jobs=12)
     for ch, out in zip(chunks, outs):
